@@ -51,9 +51,11 @@ func (c13) Meta() fw.Meta {
 			"advisory locks bind cooperating default-option handles only (WithoutFlock handles are outside the property)",
 			"recorded [acquired,releasing] intervals are subsets of the real hold intervals, so an observed overlap is a sound conviction; absence of overlap is evidence only for the schedules produced",
 		},
-		Obligations: []string{"trials", "sessions", "sessions_blocked_inprocess", "sessions_blocked_crossprocess", "porcupine_ok", "failed_open_probes", "writer_generations_checked", "reader_uniformity_checked", "creator_sessions", "double_close_sessions", "long_hold_trials", "sparse_schedule_trials", "double_close_probes", "later_opens_after_failed_open", "command_style_reads_during_writer_sessions", "racing_creator_rounds"},
-		Race:        true,
-		Workers:     8,
+		Obligations:      []string{"trials", "sessions", "sessions_blocked_inprocess", "sessions_blocked_crossprocess", "porcupine_ok", "failed_open_probes", "writer_generations_checked", "reader_uniformity_checked", "creator_sessions", "double_close_sessions", "long_hold_trials", "sparse_schedule_trials", "double_close_probes", "later_opens_after_failed_open", "command_style_reads_during_writer_sessions", "racing_creator_rounds"},
+		Race:             true,
+		HangKey:          "sessions-never-complete",
+		WorkerTimeoutSec: 600,
+		Workers:          8,
 	}
 }
 
